@@ -139,7 +139,7 @@ func main() {
 						fmt.Printf("   %s %-60s %s (%s, %d ms) expect %s %s\n", mark, d.O.Name, d.Res.Verdict, d.Res.Solver, d.Res.Ms, d.O.Expect, d.O.Pos)
 						if !d.OK && d.O.Expect == "unsat" {
 							fn := filepath.Join(workdir, sanitize(d.O.Name)+".smt2")
-							fmt.Printf("        script: %s\n", fn)
+							fmt.Printf("        script: %s\n        path: %s\n", fn, d.O.Info["path"])
 							if *verbose {
 								fmt.Println(trunc(d.Res.Output, 3000))
 							}
